@@ -117,6 +117,7 @@ Definition nprime_ok (n : Z) (rho : option (bool * Q)) (o : obsv) : bool :=
   end.
 
 Record bcase := {
+  bc_pl : policy;           (* which division policy the code under test was found to implement *)
   bc_den : positive;
   bc_rows : list (option Z * option Z);
   bc_p : Z;
@@ -125,7 +126,7 @@ Record bcase := {
   bc_exp : list xobs        (* BaselineMetrics.model_dump(), flattened in field order *)
 }.
 
-Definition baseline_checks (m : bmetrics) (d : list (Q * Q)) (p : Z) (mn k : Q) (npo : obsv) : list (obsv -> bool) :=
+Definition baseline_checks (pl : policy) (m : bmetrics) (d : list (Q * Q)) (p : Z) (mn k : Q) (npo : obsv) : list (obsv -> bool) :=
   let np := match npo with ONum q => q | _ => 1 end in
   let n := b_n m in
   [ int_match n; nprime_ok n (b_rho m); int_match (b_ddof m); num_match 0 (ddof_autocorr_of np p) ]
@@ -136,8 +137,8 @@ Definition baseline_checks (m : bmetrics) (d : list (Q * Q)) (p : Z) (mn k : Q) 
        num_match 0 (b_mbe m); val_match 0 (b_nmbe m); val_match 0 (b_pnmbe m);
        num_match 0 (b_sse m); num_match 0 (b_mse m);
        val_match 0 (b_rmse m); val_match 0 (b_rmse_adj m); val_match 0 (Root false (rmse_autocorr_adj_sq m np p));
-       val_match 0 (b_cvrmse m); val_match 0 (b_cvrmse_adj m); val_match 0 (cvrmse_autocorr_adj m np p mn);
-       val_match 0 (b_pnrmse m); val_match 0 (b_pnrmse_adj m); val_match 0 (pnrmse_autocorr_adj m np p mn);
+       val_match 0 (b_cvrmse m); val_match 0 (b_cvrmse_adj m); val_match 0 (cvrmse_autocorr_adj pl m np p mn);
+       val_match 0 (b_pnrmse m); val_match 0 (b_pnrmse_adj m); val_match 0 (pnrmse_autocorr_adj pl m np p mn);
        val_match 1 (b_r_squared m);
        rsq_adj_match (Qmax 1 (inject_Z (n - 1) / inject_Z (b_ddof m - 1))) (b_r2 m) (b_r_squared_adj m);
        val_match 0 (mape_trunc d mn) ].
@@ -148,17 +149,17 @@ Definition baseline_fields (c : bcase) : list bool :=
   let mn := q_of_float (bc_mn c) in
   match finite_pairs rows with
   | [] => match e with ONum f :: _ => [Qeq_bool f 0] | _ => [false] end
-  | d => let m := baseline d (bc_p c) mn in
-         zipcheck (baseline_checks m d (bc_p c) mn (q_of_float (bc_k c)) (nth 1 e ONone)) e
+  | d => let m := baseline_p (bc_pl c) d (bc_p c) mn in
+         zipcheck (baseline_checks (bc_pl c) m d (bc_p c) mn (q_of_float (bc_k c)) (nth 1 e ONone)) e
   end.
 Definition check_baseline (c : bcase) : bool := forallb (fun b => b) (baseline_fields c).
 (* diagnostics: indices of the fields that do not match *)
 Definition baseline_bad (c : bcase) : list N := mismatches (baseline_fields c).
 
 (* _safe_divide called directly with Python / numpy scalars *)
-Definition check_safe_divide (c : float * float * float * xobs) : bool :=
-  let '(num, den, mn, o) := c in
-  match safe_divide (q_of_float num) (q_of_float den) (q_of_float mn), to_obsv o with
+Definition check_safe_divide (c : policy * float * float * float * xobs) : bool :=
+  let '(pl, num, den, mn, o) := c in
+  match sdiv pl (q_of_float num) (q_of_float den) (q_of_float mn), to_obsv o with
   | RNone, ONone => true
   | RNum q, ONum f => close 0 q f
   | RDivZero _, ORaise => true
@@ -169,20 +170,20 @@ Definition check_safe_divide (c : float * float * float * xobs) : bool :=
 
 (* hourly gate: BaselineMetrics of the rows put on an HourlyModel, thresholds, observed verdict *)
 Record gcase := {
-  gc_den : positive; gc_rows : list (option Z * option Z * bool); gc_p : Z; gc_mn : float;
+  gc_pl : policy; gc_den : positive; gc_rows : list (option Z * option Z * bool); gc_p : Z; gc_mn : float;
   gc_tcv : float; gc_tpn : float; gc_acceptable : bool
 }.
 Definition mk_hrows (den : positive) (l : list (option Z * option Z * bool)) : list hrow :=
   map (fun r => (mk_cell den (fst (fst r)), mk_cell den (snd (fst r)), snd r)) l.
 Definition check_gate (c : gcase) : bool :=
-  match hourly_baseline_metrics (mk_hrows (gc_den c) (gc_rows c)) (gc_p c) (q_of_float (gc_mn c)) with
+  match hourly_baseline_metrics_p (gc_pl c) (mk_hrows (gc_den c) (gc_rows c)) (gc_p c) (q_of_float (gc_mn c)) with
   | None => false
   | Some m => Bool.eqb (negb (hourly_disqualified m (q_of_float (gc_tcv c)) (q_of_float (gc_tpn c)))) (gc_acceptable c)
   end.
 
 (* hourly fit: the stored baseline_metrics are those of the measured rows of predict(baseline) *)
 Record hcase := {
-  hc_den : positive; hc_rows : list (option Z * option Z * bool);
+  hc_pl : policy; hc_den : positive; hc_rows : list (option Z * option Z * bool);
   hc_frows : list (float * float * bool);      (* used instead of hc_rows when not empty (real fits: binary64 cells) *)
   hc_p : Z; hc_mn : float; hc_k : float;
   hc_exp : list xobs
@@ -198,8 +199,8 @@ Definition hourly_fields (c : hcase) : list bool :=
   let mn := q_of_float (hc_mn c) in
   match finite_pairs (measured_rows (hc_hrows c)) with
   | [] => [false]
-  | d => let m := baseline d (hc_p c) mn in
-         zipcheck (baseline_checks m d (hc_p c) mn (q_of_float (hc_k c)) (nth 1 e ONone)) e
+  | d => let m := baseline_p (hc_pl c) d (hc_p c) mn in
+         zipcheck (baseline_checks (hc_pl c) m d (hc_p c) mn (q_of_float (hc_k c)) (nth 1 e ONone)) e
   end.
 Definition check_hourly (c : hcase) : bool := forallb (fun b => b) (hourly_fields c).
 Definition hourly_bad (c : hcase) : list N := mismatches (hourly_fields c).
